@@ -9,6 +9,7 @@
 package main
 
 import (
+	"bytes"
 	"context"
 	"fmt"
 	"runtime"
@@ -41,6 +42,102 @@ type Case struct {
 	Prog  []POp    `json:"prog"`
 	Hist  []string `json:"hist,omitempty"` // the recorded history (diagnostics only)
 	KF    string   `json:"kf,omitempty"`
+	// Kind "owners": Workers goroutines on one store, each the ONLY writer of a key of its own, run the history
+	// Put, (CasByVersion with the version the last write returned, Get)* for Iters rounds or BudgetMs. In every
+	// linearisation such a writer wins every CasByVersion, reads back exactly the value and version its last write
+	// returned, and no version is handed out twice (judged by the harness; a consequence of the contract)
+	Workers  int `json:"workers,omitempty"`
+	Iters    int `json:"iters,omitempty"`
+	BudgetMs int `json:"budget_ms,omitempty"`
+}
+
+// runOwners: see Case.Workers
+func runOwners(c Case, s *hx.Sink) {
+	b := inmemB
+	if c.Be == "redis" {
+		b = redisB
+	}
+	b.Reset()
+	st := b.S
+	ctx := context.Background()
+	if c.Procs > 0 {
+		defer runtime.GOMAXPROCS(runtime.GOMAXPROCS(c.Procs))
+	}
+	var mu sync.Mutex
+	failure := ""
+	var stop int32
+	fail := func(f string, a ...any) {
+		mu.Lock()
+		if failure == "" {
+			failure = fmt.Sprintf(f, a...)
+		}
+		mu.Unlock()
+		atomic.StoreInt32(&stop, 1)
+	}
+	versions := map[string]string{}
+	handOut := func(r kvs.Record) {
+		mu.Lock()
+		id := r.Key + "/" + string(r.Value)
+		prev, dup := versions[r.Version]
+		versions[r.Version] = id
+		mu.Unlock()
+		if dup {
+			fail("version handed out twice: for %s and for %s", prev, id)
+		}
+	}
+	deadline := time.Now().Add(time.Duration(c.BudgetMs) * time.Millisecond)
+	var ops int64
+	var wg sync.WaitGroup
+	for w := 0; w < c.Workers; w++ {
+		wg.Add(1)
+		go func(w int) {
+			defer wg.Done()
+			defer func() {
+				if p := recover(); p != nil {
+					fail("worker %d: the storage panicked: %v", w, p)
+				}
+			}()
+			key := fmt.Sprintf("own%02d", w)
+			cur, err := st.Put(ctx, kvs.Record{Key: key, Value: []byte(fmt.Sprintf("w%02d-%08d", w, 0))})
+			if err != nil {
+				fail("worker %d: Put: %s", w, kvx.Class(err))
+				return
+			}
+			handOut(cur)
+			for i := 1; i <= c.Iters && atomic.LoadInt32(&stop) == 0 && time.Now().Before(deadline); i++ {
+				upd := kvs.Record{Key: key, Value: []byte(fmt.Sprintf("w%02d-%08d", w, i)), Version: cur.Version}
+				res, err := st.CasByVersion(ctx, upd)
+				if err != nil {
+					fail("worker %d is the only writer of %s and presents the version its last write returned, but CasByVersion #%d answered %s", w, key, i, kvx.Class(err))
+					return
+				}
+				handOut(res)
+				got, err := st.Get(ctx, key)
+				if err != nil {
+					fail("worker %d: Get(%s) after its successful CasByVersion #%d answered %s", w, key, i, kvx.Class(err))
+					return
+				}
+				if got.Version != res.Version || !bytes.Equal(got.Value, upd.Value) {
+					fail("worker %d: CasByVersion #%d of %s wrote {value=%s}, the following Get reads {value=%s} (same version: %t); nobody else writes the key", w, i, key, upd.Value, got.Value, got.Version == res.Version)
+					return
+				}
+				cur = res
+				atomic.AddInt64(&ops, 1)
+			}
+		}(w)
+	}
+	wg.Wait()
+	s.Extra["owners_cas_get_rounds:"+c.Be] = toInt(s.Extra["owners_cas_get_rounds:"+c.Be]) + int(ops)
+	if failure != "" {
+		s.DirectViolation(c.ID, "a key's only writer lost a CasByVersion or read back another record: "+failure, map[string]any{"workers": c.Workers, "backend": c.Be})
+	}
+}
+
+func toInt(v any) int {
+	if n, ok := v.(int); ok {
+		return n
+	}
+	return 0
 }
 
 // Ev is one completed call
@@ -650,6 +747,10 @@ func slashKeys(prog []POp) []POp {
 }
 
 func runCase(c Case, s *hx.Sink) (string, Case, bool) {
+	if c.Kind == "owners" {
+		runOwners(c, s)
+		return coqCase(c.ID, nil, []int{}), c, true
+	}
 	b := inmemB
 	if c.Be == "redis" {
 		b = redisB
@@ -892,6 +993,14 @@ func main() {
 			}
 			emit(be, "occupied", pickProcs(r), prog)
 		}
+	}
+	// ---- sole writers: every goroutine the only writer of its own key, Put (CasByVersion Get)* as fast as it goes
+	for i := 0; i < p.buR; i++ {
+		id++
+		be := []string{"redis", "redis", "inmem"}[i%3]
+		c := Case{ID: id, Be: be, Kind: "owners", Procs: []int{8, 16, 12}[i%3], Prog: []POp{}, Workers: []int{8, 6, 10}[i%3], Iters: 4000, BudgetMs: 700}
+		add(c)
+		s.Count("kind:owners:" + be)
 	}
 	occupied("inmem", p.crI/8, 8, "C02OI")
 	occupied("redis", p.crR/4, 4, "C02OR")
